@@ -570,10 +570,27 @@ PROPERTIES["C14"] = {
     "outside": "HWM bound, socket-level wrappers, addressed ingress, io_uring connection, timer accuracy",
 }
 
+PROPERTIES["C15"] = {
+    "mirsym": [
+        M("c15_graceful_stop_flushes_session_output", "d_c01", "graceful_stop_with_pending_output",
+          "tokio session actor, operational loop of run_loop in region mode: the actor has just accepted Command::Stop without error (phase ShuttingDownStream) while holding 0..2 framed chunks (symbolic bytes) in its EgressBuffer and 0..2 messages in the carry-over; execution from the loop head to perform_graceful_shutdown; any write to the stream on the way counts as a flush",
+          budget={"quick": 200, "thorough": 300}, required_covers=["c15.graceful-stop.reached-shutdown"]),
+    ],
+    "assumptions": MIRSYM_TRUST + ["region mode as for C01 kernel 2 (coroutine object assembled from the debug-info places)",
+                                   "only the session's own buffers are considered; the socket core's linger wait (pipes from the socket to the session) is not executed"],
+    "manifest": {
+        "engine": "mirsym",
+        "technique": "region-mode symbolic execution (mirsym, z3) of the session actor's exit from its operational loop on a graceful Stop",
+        "text": "One kernel of the property: when a session is stopped gracefully (close()/term() with the linger wait already satisfied at the socket level), whatever it still holds of accepted messages - framed bytes not yet written, messages in its carry-over - is written to the stream before the stream is shut down. The check FAILS on the current tree for every non-empty state within the bound; this is recorded as a known finding (the property text names the same defect), so the check reports it as KNOWN-FINDING and any other violation of the kernel as a VIOLATION.",
+        "design_ref": "DESIGN.md §5 (C15)",
+        "note": "NOT claimed: everything else in the property - the socket core's linger timer and deadline, LINGER=0 returning promptly, bounded duration of close/term, kernel socket buffers, inproc, handle drop. The kernel does not show that messages are delivered when LINGER allows; it shows where accepted messages are dropped.",
+    },
+    "outside": "socket-level linger timer, LINGER=0, duration bounds, kernel buffers, inproc",
+}
+
 HOOK_COMMITS = ["e6aec85", "b7f56e8", "904f401", "7ede9e5", "6da26bc", "f8dc301", "ef592c1"]
 
 NOT_APPLICABLE = {
-    "C15": "LINGER is a multi-actor shutdown protocol over tokio timers, mailboxes and kernel socket buffers; out of reach of solver-based checking of functions (DESIGN.md §5 C15)",
     "C20": "backend equivalence and kernel-object lifecycles (io_uring rings, fds) cannot be encoded; handlers need a live IoUring (DESIGN.md §5 C20)",
 }
 
